@@ -69,7 +69,7 @@ def gen_cases(rng: Rng, tier):
     N = 1200 if tier == "thorough" else 80
     for k in range(N):
         method = ["covariance", "inner-product"][k % 2]
-        normalize = (k // 2) % 2 == 1
+        normalize = rng.random() < 0.5          # independent of the score method below (every combination occurs)
         two_d = method == "inner-product" and k % 6 == 1
         if two_d:
             m1, m2 = rng.randint(2, 5), rng.randint(2, 5)
@@ -92,7 +92,8 @@ def gen_cases(rng: Rng, tier):
             score = ["InnPro", "NumInt", "InnPro", "PACE"][(k // 2) % 4] if not two_d else ["InnPro", "NumInt"][(k // 6) % 2]
         sel = _sel(rng, size)
         case = dict(kind="ufpca", method=method, normalize=normalize, score=score, sel=sel, ck=ck,
-                    a=rs(rng.dyadic(-3, 3, 2)), b=rs(rng.dyadic(-3, 3, 2)), seed=rng.subseed(), **data)
+                    a=rs(rng.dyadic(-3, 3, 2)), b=rs(rng.dyadic(-3, 3, 2)), seed=rng.subseed(),
+                    layout=rng.choice(["C", "C", "F", "S"]), **data)
         if k % 2 == 0 or two_d:
             # two-grid history in one process: afterwards the same pipeline runs on ANOTHER grid with the same
             # number of points and the same end points (other interior points), with other curves
@@ -105,6 +106,16 @@ def gen_cases(rng: Rng, tier):
                 XB, _ = curves(rng, n, tB, kind)
                 case["B"] = dict(t=Svec(tB), X=Smat(XB))
         yield case
+    # amplitude sweep (every run): data × 2^e, e = ±30, ±20 (≈ 1e-9 … 1e9), no normalisation, natural scores
+    for i, e in enumerate([-30, 30, -20, -30]):
+        method = ["covariance", "inner-product"][i % 2]
+        n, m = rng.randint(3, 6), rng.randint(4, 8)
+        t = grid(rng, m)
+        X, ck = curves(rng, n, t, "smooth" if method == "inner-product" else "rough")
+        sc = Fraction(2) ** e
+        yield dict(kind="ufpca", method=method, normalize=False, score="NumInt" if method == "covariance" else "InnPro",
+                   sel=["int", 1] if method == "inner-product" else ["all"], ck=f"amplitude-2^{e}", dim=1, t=Svec(t),
+                   X=Smat([[x * sc for x in r] for r in X]), scale=rs(sc), a="1", b="-1/2", seed=rng.subseed())
     # inner-product route with numbers of observations around typical block sizes (cheap: few grid points)
     sizes = [16, 17, 31, 32, 33, 63, 64, 65, 96, 97] if tier == "thorough" else [17, 32, 33, 64, 65]
     for i, n in enumerate(sizes):
@@ -185,8 +196,8 @@ def _fd(case, X=None):
     X = np.array(fl(Fm(case["X"]))) if X is None else X
     if case["dim"] == 2:
         t1, t2 = Fv(case["t"]), Fv(case["t2"])
-        return dense([t1, t2], X.reshape(len(X), len(t1), len(t2)))
-    return dense([Fv(case["t"])], X)
+        return dense([t1, t2], X.reshape(len(X), len(t1), len(t2)), case.get("layout", "C"))
+    return dense([Fv(case["t"])], X, case.get("layout", "C"))
 
 
 def _flat(a):
@@ -274,9 +285,17 @@ def _run_ufpca(case):
             out["s_none_simpson"] = None if ss is None else np.asarray(ss, dtype=float).tolist()
             out["s_train_simpson"] = None if st is None else np.asarray(st, dtype=float).tolist()
             out["train_values"] = _flat(est._training_data.values)
-        # --- history on the same object: repeat, then refit on other data and compare with a fresh estimator
+        # --- history on the same object: transform OTHER data (read-only-looking call), then repeat the earlier
+        #     calls; then refit on other data and compare with a fresh estimator
+        if score != "InnPro":
+            Xo = X[::-1] * 3.0 + 1.0
+            _try(lambda: est.transform(_fd(case, Xo), method=score, method_smoothing=None))
         s_again, _ = _try(lambda: est.transform(None, method=score))
         out["s_none_again"] = None if s_again is None else np.asarray(s_again, dtype=float).tolist()
+        if "inv1" in out:
+            again, _ = _try(lambda: est.inverse_transform(np.array(fl(Fm(S1))).reshape(n, K)))
+            out["inv1_again"] = None if again is None else _flat(again.values)
+        out["state_again"] = {k: v for k, v in _state(est, case).items() if k in ("vals", "weights", "mean")}
         X2 = X[::-1] * 0.5 + np.arange(X.shape[1]) / 8.0
         _, e8 = _try(lambda: est.fit(_fd(case, X2)))
         fresh = UFPCA(method=case["method"], n_components=sel_to_py(case["sel"]), normalize=case["normalize"])
@@ -633,6 +652,13 @@ def _oracle_one(case, impl):
     if impl.get("s_none_again") is not None:
         if not np.array_equal(np.array(impl["s_none_again"]), np.array(impl["s_none"])):
             bad("repeatable", "a second transform(None) on the same estimator returns different scores")
+    if impl.get("inv1_again") is not None and not np.array_equal(np.array(impl["inv1_again"]), np.array(impl["inv1"]), equal_nan=True):
+        bad("repeatable", "inverse_transform of the same scores changed after transform() had been called on other data", entry="UFPCA.inverse_transform")
+    if "state_again" in impl:
+        for key in ("vals", "weights", "mean"):
+            if not np.array_equal(np.array(impl["state_again"][key], dtype=float), np.array(impl[key], dtype=float), equal_nan=True):
+                bad("repeatable", f"transform() on other data changed the fitted `{key}`")
+                break
     if "refit" in impl:
         for key in ("vals", "weights", "mean", "phi", "cov"):
             if key not in impl["refit"] or key not in impl["fresh"]:
